@@ -226,15 +226,56 @@ func runC34(c *core.Ctx) {
 	// ---- S3
 	if fn := anchorM(c, pkg, "trigger", "Update"); fn != nil {
 		var incs []*ssa.Store
+		// site: where in Update the increment takes place - the store itself, or the call of a method of the
+		// trigger (on the same receiver) that performs the one store on each of its paths, outside any loop
+		sites := map[*ssa.Store]ssa.Instruction{}
 		core.Instrs(fn, func(in ssa.Instruction) {
 			if st, ok := in.(*ssa.Store); ok && isRecvFieldAddr(fn, st.Addr, "epoch") {
 				incs = append(incs, st)
+				sites[st] = in
+				return
+			}
+			cc := core.CallOf(in)
+			if cc == nil || cc.StaticCallee() == nil || cc.StaticCallee().Blocks == nil || cc.StaticCallee().Pkg != fn.Pkg || cc.StaticCallee() == fn ||
+				cc.StaticCallee().Signature.Recv() == nil || len(cc.Args) == 0 || cc.Args[0] != ssa.Value(fn.Params[0]) {
+				return
+			}
+			if _, isCall := in.(*ssa.Call); !isCall {
+				return
+			}
+			h := cc.StaticCallee()
+			var hs []*ssa.Store
+			core.Instrs(h, func(hin ssa.Instruction) {
+				if st, ok := hin.(*ssa.Store); ok && isRecvFieldAddr(h, st.Addr, "epoch") {
+					hs = append(hs, st)
+				}
+			})
+			if len(hs) == 0 {
+				return
+			}
+			for _, st := range hs {
+				everyPath := core.InnermostLoop(h, st.Block()) == nil
+				for _, hr := range core.Returns(h) {
+					if !st.Block().Dominates(hr.Block()) {
+						everyPath = false
+					}
+				}
+				if !everyPath || len(hs) != 1 {
+					// not a plain "do the transition" helper: counted as is, which fails the exactly-one test below
+					incs = append(incs, hs...)
+					return
+				}
+				incs = append(incs, st)
+				sites[st] = in
+				c.Analysed(fname(h))
 			}
 		})
+
 		if len(incs) != 1 {
 			c.Fail("C34/epoch-increment-once", "trigger.Update", fn.Pos(), fmt.Sprintf("%d stores to the epoch counter (expected exactly one)", len(incs)))
 		} else {
 			st := incs[0]
+			site := sites[st]
 			step := false
 			if b, ok := st.Val.(*ssa.BinOp); ok && b.Op == token.ADD {
 				if n, isC := core.ConstInt(b.Y); isC && n == 1 && core.ExprKey(b.X) == "recv.epoch" {
@@ -242,13 +283,13 @@ func runC34(c *core.Ctx) {
 				}
 			}
 			c.Check(step, "C34/epoch-increment-once", "trigger.Update/step", st.Pos(), "epoch = epoch + 1", "the epoch counter is not incremented by exactly the constant 1")
-			if l := core.InnermostLoop(fn, st.Block()); l != nil {
+			if l := core.InnermostLoop(fn, site.Block()); l != nil {
 				c.Fail("C34/epoch-increment-once", "trigger.Update/no-loop", st.Pos(), "the increment is inside a loop")
 			} else {
 				c.Pass("C34/epoch-increment-once", "trigger.Update/no-loop", st.Pos(), "straight-line: at most one increment per call")
 			}
 			notPending, cond := false, ssa.Value(nil)
-			for _, cd := range core.CondsAt(st.Block()) {
+			for _, cd := range core.CondsAt(site.Block()) {
 				f := core.FactOf(cd)
 				if f.Op == "T" && f.A == "!recv.isEpochStart" {
 					notPending = true
@@ -273,10 +314,10 @@ func runC34(c *core.Ctx) {
 					back(p)
 				}
 			}
-			back(st.Block())
+			back(site.Block())
 			var condVals []ssa.Value
 			for b := range reachSt {
-				if ifi, ok := b.Instrs[len(b.Instrs)-1].(*ssa.If); ok && b != st.Block() {
+				if ifi, ok := b.Instrs[len(b.Instrs)-1].(*ssa.If); ok && b != site.Block() {
 					condVals = append(condVals, ifi.Cond)
 				}
 			}
@@ -321,15 +362,16 @@ func runC34(c *core.Ctx) {
 			}
 			c.Check(normal && forced && strict, "C34/start-condition", "trigger.Update", st.Pos(), "start condition: currentRound > currEpochStartRound+roundsPerEpoch (strict) or the forced round was reached",
 				"the start condition no longer combines the strict rounds-per-epoch test with the forced-start test")
-			// same-branch bookkeeping
+			// same-branch bookkeeping, judged in the function that holds the store (Update, or the transition helper)
+			sf := st.Parent()
 			flag, start := false, false
 			cleared := false
-			for _, b2 := range fn.Blocks {
+			for _, b2 := range sf.Blocks {
 				if !st.Block().Dominates(b2) {
 					continue
 				}
 				for _, in := range b2.Instrs {
-					if s3, ok := in.(*ssa.Store); ok && isRecvFieldAddr(fn, s3.Addr, "nextEpochStartRound") {
+					if s3, ok := in.(*ssa.Store); ok && isRecvFieldAddr(sf, s3.Addr, "nextEpochStartRound") {
 						if k := c.P.Const(pkg, "disabledRoundForForceEpochStart"); k != nil && core.ExprKey(s3.Val) == k.Val().ExactString() {
 							cleared = true
 						}
@@ -340,13 +382,13 @@ func runC34(c *core.Ctx) {
 				// ... and on every path from the epoch increment to the return
 				isClear := func(in ssa.Instruction) bool {
 					s3, ok := in.(*ssa.Store)
-					if !ok || !isRecvFieldAddr(fn, s3.Addr, "nextEpochStartRound") {
+					if !ok || !isRecvFieldAddr(sf, s3.Addr, "nextEpochStartRound") {
 						return false
 					}
 					k := c.P.Const(pkg, "disabledRoundForForceEpochStart")
 					return k != nil && core.ExprKey(s3.Val) == k.Val().ExactString()
 				}
-				if esc, _ := (core.PathQ{Fn: fn, From: st, Via: isClear, Target: core.AnyReturn}).Escape(); esc != nil {
+				if esc, _ := (core.PathQ{Fn: sf, From: st, Via: isClear, Target: core.AnyReturn}).Escape(); esc != nil {
 					cleared = false
 				}
 			}
@@ -354,12 +396,12 @@ func runC34(c *core.Ctx) {
 				"the forced start round is not cleared on every path when the epoch starts: a stale forced round stays armed (after SetProcessed, or after a revert that moves the epoch start back) and ends a later epoch before its minimum length")
 			for _, in := range st.Block().Instrs {
 				if s2, ok := in.(*ssa.Store); ok {
-					if isRecvFieldAddr(fn, s2.Addr, "isEpochStart") {
+					if isRecvFieldAddr(sf, s2.Addr, "isEpochStart") {
 						if b, ok := core.ConstBool(s2.Val); ok && b {
 							flag = true
 						}
 					}
-					if isRecvFieldAddr(fn, s2.Addr, "currEpochStartRound") && (core.ExprKey(s2.Val) == "recv.currentRound" || core.ExprKey(s2.Val) == "p1") {
+					if isRecvFieldAddr(sf, s2.Addr, "currEpochStartRound") && (core.ExprKey(s2.Val) == "recv.currentRound" || core.ExprKey(s2.Val) == "p1") {
 						start = true
 					}
 				}
